@@ -22,18 +22,17 @@ WellFormed(fs) ==
   /\ \A i \in 1..Len(fs) : Depth(fs, i) >= 0
   /\ Depth(fs, Len(fs)) = 0
   /\ \A i \in 1..Len(fs) : fs[i] \in Inert =>
-        /\ (i = 1 \/ fs[i - 1].k = "text")
-        /\ (i = Len(fs) \/ fs[i + 1].k = "text")
-  /\ \A i \in 1..(Len(fs) - 1) : ~(fs[i].k = "text" /\ fs[i + 1].k = "text")
+        /\ (IF i > 1 THEN fs[i - 1].k = "text" ELSE TRUE)
+        /\ (IF i < Len(fs) THEN fs[i + 1].k = "text" ELSE TRUE)
+  /\ \A i \in 1..Len(fs) : IF i < Len(fs) THEN ~(fs[i].k = "text" /\ fs[i + 1].k = "text") ELSE TRUE
 
-Docs == {fs \in UNION {[1..n -> AllFrags] : n \in 0..MaxFrags} : WellFormed(fs)}
 Opts == [trim : DB, lstrip : DB]
 
 VARIABLE printed
 mcVars == <<lexVars, docVars, printed>>
 
 MCInit ==
-  /\ frags \in Docs
+  /\ \E n \in 0..MaxFrags : \E fs \in [1..n -> AllFrags] : WellFormed(fs) /\ frags = fs
   /\ opts \in Opts
   /\ LexInit(DocBytes(frags))
   /\ printed = FALSE
